@@ -74,28 +74,58 @@ Proof.
   cbn [query_gen]. apply query_body_ext; [exact Heq | exact IH].
 Qed.
 
-(* loads of scripts that bind different keys commute (whatever their overwrite flags) *)
+(* whether a script runs to its end depends only on which of the keys IT MENTIONS are bound *)
+Lemma exec_ok_local ss : forall p1 p2,
+  (forall x, In x (bound_keys ss) -> p1 x = p2 x) -> exec_ok ss p1 = exec_ok ss p2.
+Proof.
+  induction ss as [|st ss IH]; intros p1 p2 H; [reflexivity|].
+  assert (Ht : forall x, In x (bound_keys ss) -> In x (bound_keys (st :: ss))).
+  { intros x Hx. unfold bound_keys in *. simpl. apply in_or_app. right. exact Hx. }
+  assert (Hh : forall k, match st with SDef k' _ | SNone k' | SDel k' | SSelf k' => k = k' | SFail => False end ->
+                         In k (bound_keys (st :: ss))).
+  { intros k Hk. unfold bound_keys. simpl. apply in_or_app. left.
+    destruct st; simpl; try (left; symmetry; exact Hk); destruct Hk. }
+  destruct st as [k d|k|k|k|]; simpl; try reflexivity.
+  - apply IH. intros x Hx. rewrite (H x (Ht x Hx)). reflexivity.
+  - apply IH. intros x Hx. rewrite (H x (Ht x Hx)). reflexivity.
+  - rewrite (H k (Hh k eq_refl)). f_equal. apply IH. intros x Hx. rewrite (H x (Ht x Hx)). reflexivity.
+  - rewrite (H k (Hh k eq_refl)). f_equal. apply IH. intros x Hx. apply H. exact (Ht x Hx).
+Qed.
+
+Lemma old_members_ext c c' k : ctx_val c k = ctx_val c' k -> old_members c k = old_members c' k.
+Proof. intros H. unfold old_members, ctx_get. rewrite H. reflexivity. Qed.
+
+Lemma bound_in_ext (c c' : ctx) k : ctx_val c k = ctx_val c' k -> bound_in c k = bound_in c' k.
+Proof. unfold bound_in, ctx_val. intros ->. reflexivity. Qed.
+
+(* loads of scripts that mention different keys commute (whatever their overwrite flags, and
+   whatever the scripts bind: functions, constants, None, deletions) *)
 Theorem load_commute c sc1 ow1 sc2 ow2 c1 c12 :
   (forall k, In k (bound_keys (s_stmts sc1)) -> ~ In k (bound_keys (s_stmts sc2))) ->
   load c sc1 ow1 = Some c1 -> load c1 sc2 ow2 = Some c12 ->
   exists c2 c21, load c sc2 ow2 = Some c2 /\ load c2 sc1 ow1 = Some c21 /\
-                 forall k, ctx_get c12 k = ctx_get c21 k.
+                 forall k, ctx_val c12 k = ctx_val c21 k.
 Proof.
   intros Hdis H1 H12.
-  assert (Hok1 : s_broken sc1 = false /\ ~ In SFail (s_stmts sc1)) by (apply (load_ok_iff c sc1 ow1); eauto).
-  assert (Hok2 : s_broken sc2 = false /\ ~ In SFail (s_stmts sc2)) by (apply (load_ok_iff c1 sc2 ow2); eauto).
-  destruct (proj2 (load_ok_iff c sc2 ow2) Hok2) as [c2 H2].
-  destruct (proj2 (load_ok_iff c2 sc1 ow1) Hok1) as [c21 H21].
+  assert (Hok1 : s_broken sc1 = false /\ exec_ok (s_stmts sc1) (bound_in c) = true) by (apply (load_ok_iff c sc1 ow1); eauto).
+  assert (Hok2 : s_broken sc2 = false /\ exec_ok (s_stmts sc2) (bound_in c1) = true) by (apply (load_ok_iff c1 sc2 ow2); eauto).
+  assert (Hok2' : exec_ok (s_stmts sc2) (bound_in c) = true).
+  { destruct Hok2 as [_ <-]. apply exec_ok_local. intros x Hx. apply bound_in_ext. symmetry.
+    apply (load_frame _ _ _ _ _ H1). intros Hi. exact (Hdis x Hi Hx). }
+  destruct (proj2 (load_ok_iff c sc2 ow2) (conj (proj1 Hok2) Hok2')) as [c2 H2].
+  assert (Hok1' : exec_ok (s_stmts sc1) (bound_in c2) = true).
+  { destruct Hok1 as [_ <-]. apply exec_ok_local. intros x Hx. apply bound_in_ext.
+    apply (load_frame _ _ _ _ _ H2). exact (Hdis x Hx). }
+  destruct (proj2 (load_ok_iff c2 sc1 ow1) (conj (proj1 Hok1) Hok1')) as [c21 H21].
   exists c2, c21. split; [exact H2|]. split; [exact H21|]. intros k.
-  rewrite (load_get _ _ _ _ k H12), (load_get _ _ _ _ k H21), (load_get _ _ _ _ k H1), (load_get _ _ _ _ k H2).
-  destruct (last_def (s_stmts sc1) k) as [d1|] eqn:E1; destruct (last_def (s_stmts sc2) k) as [d2|] eqn:E2; try reflexivity.
-  exfalso.
-  assert (In k (bound_keys (s_stmts sc1))) as Hin1.
-  { destruct (in_dec (list_eq_dec N.eq_dec) k (bound_keys (s_stmts sc1))) as [Hi|Hi]; [exact Hi|].
-    apply last_def_none_iff in Hi. congruence. }
-  apply (Hdis k Hin1).
-  destruct (in_dec (list_eq_dec N.eq_dec) k (bound_keys (s_stmts sc2))) as [Hi|Hi]; [exact Hi|].
-  apply last_def_none_iff in Hi. congruence.
+  destruct (in_dec (list_eq_dec N.eq_dec) k (bound_keys (s_stmts sc1))) as [Hi1|Hi1].
+  - assert (Hn2 := Hdis k Hi1).
+    assert (E2 : ctx_val c2 k = ctx_val c k) by (apply (load_frame _ _ _ _ _ H2 Hn2)).
+    rewrite (load_frame _ _ _ _ _ H12 Hn2).
+    rewrite (load_val _ _ _ _ k H1), (load_val _ _ _ _ k H21), E2, (old_members_ext _ _ _ E2). reflexivity.
+  - assert (E1 : ctx_val c1 k = ctx_val c k) by (apply (load_frame _ _ _ _ _ H1 Hi1)).
+    rewrite (load_frame _ _ _ _ _ H21 Hi1).
+    rewrite (load_val _ _ _ _ k H12), (load_val _ _ _ _ k H2), E1, (old_members_ext _ _ _ E1). reflexivity.
 Qed.
 
 (* ... so every query answers the same after either load order: references between the
@@ -110,7 +140,7 @@ Theorem load_order_irrelevant m c sc1 ow1 sc2 ow2 c1 c12 :
 Proof.
   intros Hdis H1 H12. destruct (load_commute _ _ _ _ _ _ _ Hdis H1 H12) as [c2 [c21 [H2 [H21 Hk]]]].
   exists c2, c21. split; [exact H2|]. split; [exact H21|].
-  apply query_ext. split; [reflexivity | exact Hk].
+  apply query_ext. split; [reflexivity|]. intros k. cbn [e_ctx]. unfold ctx_get. rewrite Hk. reflexivity.
 Qed.
 
 (* ------------------------------------------------------------------ 2. schedules *)
@@ -383,8 +413,8 @@ Qed.
    overwrite); the call is resumed: it answers old, and a call made now answers new. *)
 Local Open Scope string_scope.
 Definition wit_def (a : string) : def := mkDef (Some 1) [mkClause 0 [GUnify 0 (d a)]].
-Definition wit_e0 : engine := mkEngine [((d "p", 1), [[d "f"]])] [(mkkey (d "p") (AFix 1), [wit_def "old"])].
-Definition wit_e1 : engine := mkEngine [((d "p", 1), [[d "f"]])] [(mkkey (d "p") (AFix 1), [wit_def "new"])].
+Definition wit_e0 : engine := mkEngine [((d "p", 1), [[d "f"]])] [(mkkey (d "p") (AFix 1), VObj (wit_def "old"))].
+Definition wit_e1 : engine := mkEngine [((d "p", 1), [[d "f"]])] [(mkkey (d "p") (AFix 1), VObj (wit_def "new"))].
 
 Example call_time_resolution_witness :
   forallb callfree (call_defs wit_e0 (d "p") 1) = true /\
